@@ -14,6 +14,7 @@ What is *not* here (tied by correspondence only, see NOTES-C09.md): the real nom
 import SwimVerif.Proofs.ReconStyles
 import SwimVerif.Proofs.ReconInc
 import SwimVerif.Proofs.ReconIncCoupled
+import SwimVerif.Proofs.ReconIncSeq
 
 set_option linter.unusedVariables false
 namespace SwimVerif.Recon
@@ -226,6 +227,56 @@ is `rawRun` on the corresponding character chunks.  (Not attempted: `charsOfByte
 def C09_incremental_eq_oneshot_bytes_open : Prop :=
   ∀ (T : List Char) (bcs : List (List Nat)), bcs ≠ [] → bcs.flatten = bytesOfChars T →
     cls (rawRunB {} [] bcs) = cls (parseOne T)
+
+open SwimVerif.ReconInc in
+/-- **The decoder recovers after an error** (and after anything else): when a document is finished — a value, an
+error seen by a non-final `decode` call, an error or nothing at `decode_eof`, however the document was chunked and in
+whatever state `d` and buffer the decoder started — the decoder is the fresh decoder again; so a sequence of documents
+through ONE decoder is each document through a decoder of its own.  (`RecognizerDecoder::decode`'s reset condition
+`!matches!(result, Ok(None))` is read from the source: `decodeResetsOnError`.) -/
+theorem C09_decoder_recovers_after_error (d : Raw) (buf : List Char) (doc : List (List Char))
+    (docs : List (List (List Char))) :
+    (rawDoc d buf doc).1 = {} ∧ rawSeq d (doc :: docs) = rawRun d [] doc :: docs.map (rawRun {} []) :=
+  ⟨rawDoc_fresh doc d buf, rawSeq_eq (doc :: docs) d⟩
+
+open SwimVerif.ReconInc in
+/-- … composed with `C09_incremental_eq_oneshot`: any sequence of documents, well-formed or not, each chunked in any
+way, fed through one decoder yields for every document exactly its one-shot parse result (character level). -/
+theorem C09_decoder_sequence_eq_oneshot (docs : List (List (List Char))) (h : ∀ doc ∈ docs, doc ≠ []) :
+    (rawSeq {} docs).map cls = docs.map (fun doc => cls (parseOne doc.flatten)) := by
+  rw [rawSeq_fresh, List.map_map]
+  apply List.map_congr_left
+  intro doc hd
+  cases doc with
+  | nil => exact absurd rfl (h [] hd)
+  | cons c cs => exact C09_incremental_eq_oneshot c cs
+
+open SwimVerif.ReconInc in
+/-- The same reset on byte buffers: a `decode` call that answers anything but "need more" — including `BadUtf8` —
+leaves the fresh decoder; `decode_eof` does so whenever the buffer passes `read_utf8` (or the early return resets,
+`eofBadUtf8Resets`; it does not in the code as it is: finding C09-N5). -/
+theorem C09_decoder_recovers_after_error_bytes (d : Raw) (buf : List Nat) :
+    ((d.decodeB buf).2.2 ≠ .none → (d.decodeB buf).1 = {}) ∧
+    (SwimVerif.Generated.Recon.eofBadUtf8Resets = true ∨ readUtf8 buf ≠ none → (d.decodeEofB buf).1 = {}) :=
+  ⟨decodeB_fresh d buf, decodeEofB_fresh d buf⟩
+
+open SwimVerif.ReconInc in
+/-- `WithLenRecognizerDecoder`, frames back to back: given that `decode_eof` resets on every path, the inner decoder is
+fresh whenever the decoder is between frames or skipping the rest of one (`WLFresh`), and at every frame boundary the
+whole decoder is literally the initial one — the next frame cannot see anything of the previous one. -/
+theorem C09_withlen_fresh_between_frames_of_eof_reset (hE : SwimVerif.Generated.Recon.eofBadUtf8Resets = true)
+    (fuel : Nat) (w : WL) (src : List Nat) (h : WLFresh w) :
+    WLFresh (WL.decode fuel w src).1 ∧ ((WL.decode fuel w src).1.state = .header → (WL.decode fuel w src).1 = {}) :=
+  ⟨WL_decode_fresh hE fuel w src h, WL_header_fresh hE fuel w src h⟩
+
+open SwimVerif.ReconInc in
+/-- Open — and *false for the code as it is* (finding C09-N5, `fixes/C09-N5.patch`): `decode_eof` starts with
+`read_utf8(buf)?`, which returns before `self.reset()`; a frame whose last piece is not UTF-8 leaves the parser stack
+and the half-built value of its earlier pieces in the decoder, and the next frame continues them (witness in
+`corpus/C09/chunks-N5.ops`; the model reproduces it, `chunksm`).  With the patch the extracted flag flips and this is
+`C09_withlen_fresh_between_frames_of_eof_reset rfl`. -/
+def C09_withlen_fresh_between_frames_open : Prop :=
+  ∀ (fuel : Nat) (w : WL) (src : List Nat), WLFresh w → WLFresh (WL.decode fuel w src).1
 
 example : SwimVerif.ReconInc.rawRun {} [] ["@a(1".toList, "2) {x".toList, ":".toList, " \"y\"}".toList] =
     SwimVerif.ReconInc.rawRun {} [] ["@a(1".toList ++ ["2) {x".toList, ":".toList, " \"y\"}".toList].flatten] :=
